@@ -502,11 +502,21 @@ def _paths(fi, callee, init, case):
 def _mask_cases(ctx, ps):
     """set of ordering cases (numbers) selected by the mask under which
     presweep_setup sums the midpoint total, or None (reported)."""
+    # the step sizes in cm and the relative positions stored for the sweep,
+    # recognised by what they hold (a local, or the attribute behind its
+    # store), not by their names
+    from .c03 import _presweep_arrays, _denotes
+    arrays = _presweep_arrays(ps)
+
+    def selected(x, line):
+        return isinstance(x, ast.Subscript) and isinstance(
+            x.ctx, ast.Load) and (_denotes(arrays, 'dz', x.value, line) or
+                                  _denotes(arrays, 'rel', x.value, line))
     loops = [n for n in walk_no_nested(ps.node) if isinstance(n, ast.For)
              and isinstance(n.target, ast.Name)
              and _s(n.iter) == 'range(self.n_region)'
-             and any(isinstance(x, ast.Subscript) and _s(x.value) in (
-                 'dz_abs', 'z_mod') for x in ast.walk(n))]
+             and any(selected(x, getattr(x, 'lineno', 0) + 1)
+                     for x in ast.walk(n))]
     if len(loops) > 1:
         raise AnalysisError('presweep_setup: power-cell loop')
     if not loops:
@@ -529,14 +539,20 @@ def _mask_cases(ctx, ps):
     if len(cellarr) != 1:
         raise AnalysisError('presweep_setup: store of self._kfint')
     cell_text = _s(cellarr[0].value)
+    # behind their (single, unconditional) store the attributes themselves
+    # denote the stored arrays
+    if arrays['pos'].get('self._z_abs', 10 ** 9) < lp.lineno:
+        pos_texts.add('self._z_abs')
+    cell_texts = {cell_text}
+    if arrays['cell'].get('self._kfint', 10 ** 9) < lp.lineno:
+        cell_texts.add('self._kfint')
     keep = tuple({cell_text, kf} | {t for t in pos_texts if t.isidentifier()})
     masks = []
     for a in walk_no_nested(lp):
         if not isinstance(a, (ast.Assign, ast.AugAssign)):
             continue
         for x in ast.walk(a.value):
-            if isinstance(x, ast.Subscript) and isinstance(x.ctx, ast.Load) \
-                    and _s(x.value) in ('dz_abs', 'z_mod'):
+            if selected(x, a.lineno):
                 masks.append((a, U.value_at(ps.node, x.slice, a.lineno,
                                             keep=keep)))
     if len(masks) < 2:
@@ -577,8 +593,9 @@ def _mask_cases(ctx, ps):
             vals = [e.left] + list(e.comparators)
             res = True
             for l, op, r in zip(vals, e.ops, vals[1:]):
-                if {_s(l), _s(r)} == {cell_text, kf} and isinstance(
-                        op, ast.Eq):
+                if kf in (_s(l), _s(r)) and {_s(l), _s(r)} - {kf} <= \
+                        cell_texts and _s(l) != _s(r) and isinstance(
+                            op, ast.Eq):
                     continue            # the step lies in this power cell
                 a, b = num(l), num(r)
                 if (_s(l) in BOUNDS) != (_s(r) in BOUNDS) and \
